@@ -230,26 +230,33 @@ def readPiece : Nat → Bytes → Bytes × Bytes
     let p := readPiece m r
     (c :: p.1, p.2)
 
-/-- `line = b''; while not line.endswith(b'\n'): piece = readline(max); if not piece: break; line += piece` -/
-def joinPieces (max : Nat) : Nat → Bytes → Bytes → Bytes × Bytes
+/-- `line = b''; while not line.endswith(b'\n'): piece = readline(max); if not piece: <end of input>; line += piece`.
+At end of input inside a line the helper either keeps what it has (`break`; `drops = false`) or gives
+the unfinished line up (`return`; `drops = true`) — which of the two the source does is regenerated
+as `Gen.C13.HELPER_DROPS_UNFINISHED_LINE`. -/
+def joinPieces (max : Nat) (drops : Bool) : Nat → Bytes → Bytes → Bytes × Bytes
   | 0, line, s => (line, s)
   | f + 1, line, s =>
     if line.getLast? ≠ some 10 then
       let p := readPiece max s
-      if p.1 = [] then (line, s) else joinPieces max f (line ++ p.1) p.2
+      if p.1 = [] then (if drops then [] else line, s) else joinPieces max drops f (line ++ p.1) p.2
     else (line, s)
 
 /-- One `_read_next_string_line` read, before decoding: `([], _)` is end of input. -/
-def readLine (max : Nat) (s : Bytes) : Bytes × Bytes := joinPieces max (s.length + 1) [] s
+def readLine (max : Nat) (drops : Bool) (s : Bytes) : Bytes × Bytes := joinPieces max drops (s.length + 1) [] s
 
 /-- The successive raw lines the helper obtains from the stream until end of input. -/
-def rawLinesAux (max : Nat) : Nat → Bytes → List Bytes
+def rawLinesAux (max : Nat) (drops : Bool) : Nat → Bytes → List Bytes
   | 0, _ => []
   | f + 1, s =>
-    let p := readLine max s
-    if p.1 = [] then [] else p.1 :: rawLinesAux max f p.2
+    let p := readLine max drops s
+    if p.1 = [] then [] else p.1 :: rawLinesAux max drops f p.2
 
-def rawLines (max : Nat) (s : Bytes) : List Bytes := rawLinesAux max (s.length + 1) s
+def rawLines (max : Nat) (drops : Bool) (s : Bytes) : List Bytes := rawLinesAux max drops (s.length + 1) s
+
+/-- The raw lines of the helper as the source has it now. -/
+def helperLines (s : Bytes) : List Bytes :=
+  rawLines Gen.C13.READLINE_MAX Gen.C13.HELPER_DROPS_UNFINISHED_LINE s
 
 /-- The reader *before* the repair `proposed_fixes/C13-helper-joins-line-pieces.diff`: every
 `readline(max)` piece was taken for a line.  Kept only to state what the repair changed. -/
@@ -420,7 +427,7 @@ def parse (lines : List Bytes) : Outcome :=
           | _ => .before (.fatal .expected4Ports)
 
 /-- The helper fed a byte stream. -/
-def helper (stream : Bytes) : Outcome := parse (rawLines Gen.C13.READLINE_MAX stream)
+def helper (stream : Bytes) : Outcome := parse (helperLines stream)
 
 /-- Arguments of one recorded `method.setup_firewall` call. -/
 structure Call where
